@@ -29,75 +29,147 @@ def compile_func(p):
     return p.func("compile", "tracer.compiler.python")
 
 
+def exec_site(p):
+    """Where the generated text is executed: (compile Func, executing Func E, exec call, eval call or None,
+    mapping {param of E: argument expression in compile} (empty when E is compile itself))."""
+    f = compile_func(p)
+    m = f.module
+    cands = []
+    for g in p.funcs.values():
+        if g.module is not m:
+            continue
+        for n in walk_no_nested(g.node):
+            if isinstance(n, ast.Call) and isinstance(n.func, ast.Name) and n.func.id == "exec" and len(n.args) >= 1:
+                cands.append((g, n))
+    if len(cands) != 1:
+        raise AnalysisError(f"unrecognised idiom: expected exactly one exec(...) in tracer/compiler/python, found {len(cands)}")
+    g, ex = cands[0]
+    ev = next((n for n in walk_no_nested(g.node) if isinstance(n, ast.Call) and isinstance(n.func, ast.Name) and n.func.id == "eval"), None)
+    mapping = {}
+    if g is not f:
+        sites = [n for n in walk_no_nested(f.node) if isinstance(n, ast.Call) and resolve_callee(p, n, m) == ("func", g)]
+        if len(sites) != 1:
+            raise AnalysisError(f"unrecognised idiom: helper {g.name} that exec()s the code is called {len(sites)} times from compile()")
+        call = sites[0]
+        for i, a in enumerate(call.args):
+            if i < len(g.params):
+                mapping[g.params[i]] = a
+        for k in call.keywords:
+            if k.arg:
+                mapping[k.arg] = k.value
+        mapping["__call__"] = call
+    return f, g, ex, ev, mapping
+
+
 def r1(p, rep):
     rep.rule("C04.R1", "the executed text is the returned text", "T-DER (same reaching definition)", floor=3)
-    f = compile_func(p)
+    f, g, ex, ev, mapping = exec_site(p)
     cfg = CFG(f.node)
     rd = ReachingDefs(cfg)
-    execs = [n for n in walk_no_nested(f.node) if isinstance(n, ast.Call) and isinstance(n.func, ast.Name) and n.func.id == "exec"]
-    if len(execs) != 1:
-        raise AnalysisError(f"unrecognised idiom: compile() has {len(execs)} exec calls")
-    ex = execs[0]
     a0 = ex.args[0]
     if not isinstance(a0, ast.Name):
-        rep.violation("C04.R1", f"{f.qualname}:exec:arg0", f"{f.module.rel}:{ex.lineno}", f"exec() runs the expression `{norm(a0)}`, not the stored source text that is returned to the caller")
+        rep.violation("C04.R1", f"{f.qualname}:exec:arg0", f"{g.module.rel}:{ex.lineno}", f"exec() runs the expression `{norm(a0)}`, not the stored source text that is returned to the caller")
         return
+    if g is not f:
+        # the executed text is a parameter of the helper, never rebound there
+        rebound = [n for n in walk_no_nested(g.node) if isinstance(n, ast.Name) and n.id == a0.id and isinstance(n.ctx, ast.Store)]
+        src_expr = mapping.get(a0.id)
+        if a0.id not in g.params or rebound or not isinstance(src_expr, ast.Name):
+            rep.violation("C04.R1", f"{f.qualname}:exec:arg0", f"{g.module.rel}:{ex.lineno}", f"the text given to exec() in {g.name} is not exactly the string compile() passes in")
+            return
+        code_name, exec_anchor = src_expr.id, mapping["__call__"]
+    else:
+        code_name, exec_anchor = a0.id, ex
     rets = [n for n in walk_no_nested(f.node) if isinstance(n, ast.Return) and isinstance(n.value, ast.Tuple)]
     if not rets:
         raise AnalysisError("unrecognised idiom: compile() has no `return function, code`")
     for r in rets:
         code_elt = r.value.elts[-1]
-        same_name = isinstance(code_elt, ast.Name) and code_elt.id == a0.id
-        d1 = rd.defs_reaching(cfg.node_for(ex), a0.id)
-        d2 = rd.defs_reaching(cfg.node_for(r), a0.id) if same_name else []
+        same_name = isinstance(code_elt, ast.Name) and code_elt.id == code_name
+        d1 = rd.defs_reaching(cfg.node_for(exec_anchor), code_name)
+        d2 = rd.defs_reaching(cfg.node_for(r), code_name) if same_name else []
         ok = same_name and d1 == d2 and len(d1) == 1
-        rep.add("C04.R1", f"{f.qualname}:exec-vs-return", f"{f.module.rel}:{r.lineno}", ok, f"exec({a0.id}) and `return ..., {norm(code_elt)}` see the same single definition of {a0.id}" if ok else f"the returned code `{norm(code_elt)}` is not the text given to exec(`{a0.id}`) (definitions {d1} vs {d2})")
+        rep.add("C04.R1", f"{f.qualname}:exec-vs-return", f"{f.module.rel}:{r.lineno}", ok, f"exec({code_name}) and `return ..., {norm(code_elt)}` see the same single definition of {code_name}" if ok else f"the returned code `{norm(code_elt)}` is not the text given to exec(`{code_name}`) (definitions {d1} vs {d2})")
     # the api wrappers
-    for g in c03.api_inners(p):
-        calls, fn_names, code_names, bound = c03.compiled_function_calls(p, g)
+    for w in c03.api_inners(p):
+        calls, fn_names, code_names, bound = c03.compiled_function_calls(p, w)
         assigns = {id(a) for a, i in bound.values()}
-        rep.add("C04.R1", f"{g.qualname}:one-unpack", g.loc, len(assigns) == 1, "function and code come from one unpacking of one cache call")
-        for r in [n for n in walk_no_nested(g.node) if isinstance(n, ast.Return)]:
-            cfgg = CFG(g.node)
-            facts = [(norm(t), pol) for t, pol in cfgg.guards(cfgg.node_for(r))] if cfgg.node_for(r) else []
+        rep.add("C04.R1", f"{w.qualname}:one-unpack", w.loc, len(assigns) == 1, "function and code come from one unpacking of one cache call")
+        cfgw = CFG(w.node)
+        n_graph = 0
+        for r in [n for n in walk_no_nested(w.node) if isinstance(n, ast.Return)]:
+            facts = [(norm(t), pol) for t, pol in cfgw.guards(cfgw.node_for(r))] if cfgw.node_for(r) else []
             if ("graph", True) in facts:
+                n_graph += 1
                 ok = isinstance(r.value, ast.Name) and r.value.id in code_names
-                rep.add("C04.R1", f"{g.qualname}:graph-returns-code", f"{g.module.rel}:{r.lineno}", ok, f"graph=True returns `{norm(r.value)}`" + ("" if ok else ", which is not the code string of the compiled function"))
+                rep.add("C04.R1", f"{w.qualname}:graph-returns-code", f"{w.module.rel}:{r.lineno}", ok, f"graph=True returns `{norm(r.value)}`" + ("" if ok else ", which is not the code string of the compiled function"))
+        if n_graph == 0:
+            # `return helper(graph, function, code, tensor_args)`: the helper returns its code parameter under graph
+            ok = False
+            for c in calls:
+                h = getattr(c, "_helper", None)
+                if h is None:
+                    continue
+                hf = h[0]
+                amap = {hf.params[i]: a for i, a in enumerate(c.args) if i < len(hf.params)}
+                cfgh = CFG(hf.node)
+                for r in walk_no_nested(hf.node):
+                    if isinstance(r, ast.Return) and isinstance(r.value, ast.Name):
+                        facts = [(t, pol) for t, pol in cfgh.guards(cfgh.node_for(r))]
+                        gnames = {k for k, v in amap.items() if isinstance(v, ast.Name) and v.id == "graph"}
+                        if any(isinstance(t, ast.Name) and t.id in gnames and pol for t, pol in facts):
+                            v = amap.get(r.value.id)
+                            ok = isinstance(v, ast.Name) and v.id in code_names
+            rep.add("C04.R1", f"{w.qualname}:graph-returns-code", w.loc, ok, "graph=True returns the code string of the compiled function (through a helper)" if ok else "no return of the code string under graph=True found")
+
+
+def namespace_copy_of(p, g, ns_name):
+    """definitions of the exec namespace `ns_name` in function g -> list of (definition node, copied mapping name or None)"""
+    out = []
+    for n in walk_no_nested(g.node):
+        if isinstance(n, ast.Assign) and any(isinstance(t, ast.Name) and t.id == ns_name for t in n.targets):
+            d = n.value
+            src_name = None
+            if isinstance(d, ast.Dict) and len(d.keys) == 1 and d.keys[0] is None and isinstance(d.values[0], ast.Name):
+                src_name = d.values[0].id
+            elif isinstance(d, ast.Call) and isinstance(d.func, ast.Name) and d.func.id == "dict" and len(d.args) == 1 and isinstance(d.args[0], ast.Name) and not d.keywords:
+                src_name = d.args[0].id
+            out.append((n, src_name))
+    return out
 
 
 def r2(p, rep):
     rep.rule("C04.R2", "the exec namespace contains only the listed constants", "T-EFF", floor=1)
-    f = compile_func(p)
-    ex = [n for n in walk_no_nested(f.node) if isinstance(n, ast.Call) and isinstance(n.func, ast.Name) and n.func.id in ("exec", "eval")]
-    for c in ex:
+    f, g, ex, ev, mapping = exec_site(p)
+    for c in [x for x in (ex, ev) if x is not None]:
         for a in c.args[1:]:
-            key = f"{f.qualname}:{c.func.id}:ns({norm(a)})"
-            site = f"{f.module.rel}:{c.lineno}"
+            key = f"{f.qualname}:{c.func.id}:ns"
+            site = f"{g.module.rel}:{c.lineno}"
             if not isinstance(a, ast.Name):
                 rep.add("C04.R2", key, site, False, f"namespace is the expression `{norm(a)}`")
                 continue
-            defs = [n.value for n in walk_no_nested(f.node) if isinstance(n, ast.Assign) and any(isinstance(t, ast.Name) and t.id == a.id for t in n.targets)]
-            ok = bool(defs)
+            defs = namespace_copy_of(p, g, a.id)
+            ok = bool(defs) and all(sn is not None for _, sn in defs)
             why = []
-            for d in defs:
-                if isinstance(d, ast.Dict):
-                    for k, v in zip(d.keys, d.values):
-                        if k is None and isinstance(v, ast.Name) and v.id == "name_to_constant":
-                            continue
-                        ok = False
-                        why.append(f"extra entry {norm(k) if k is not None else '**' + norm(v)}")
-                elif isinstance(d, ast.Call) and isinstance(d.func, ast.Name) and d.func.id == "dict" and len(d.args) == 1 and norm(d.args[0]) == "name_to_constant" and not d.keywords:
-                    pass
-                else:
+            for d, sn in defs:
+                if sn is None:
+                    why.append(f"built by `{norm(d.value)[:60]}`")
+                    continue
+                # the copied mapping is the constants table (possibly received as a parameter)
+                origin = sn
+                if g is not f and sn in g.params:
+                    v = mapping.get(sn)
+                    origin = v.id if isinstance(v, ast.Name) else None
+                tdefs = [n.value for n in walk_no_nested(f.node) if isinstance(n, ast.Assign) and any(isinstance(t, ast.Name) and t.id == origin for t in n.targets)] if origin else []
+                good = bool(tdefs) and all(isinstance(t, ast.DictComp) and "variableid_to_constant" in norm(t) for t in tdefs)
+                if not good:
                     ok = False
-                    why.append(f"built by `{norm(d)[:60]}`")
-            muts = [n for n in walk_no_nested(f.node) if (isinstance(n, ast.Subscript) and isinstance(n.ctx, ast.Store) and norm(n.value) == a.id) or (isinstance(n, ast.Call) and isinstance(n.func, ast.Attribute) and norm(n.func.value) == a.id and n.func.attr in ("update", "setdefault"))]
+                    why.append(f"copies `{sn}` which is not (only) the table of embedded constants")
+            muts = [n for n in walk_no_nested(g.node) if (isinstance(n, ast.Subscript) and isinstance(n.ctx, ast.Store) and norm(n.value) == a.id) or (isinstance(n, ast.Call) and isinstance(n.func, ast.Attribute) and norm(n.func.value) == a.id and n.func.attr in ("update", "setdefault"))]
             if muts:
                 ok = False
                 why.append("mutated after construction")
             rep.add("C04.R2", key, site, ok, f"`{a.id}` = copy of the constants table only" if ok else f"the namespace of the generated code is not just the constants table: {why}; the returned text is then not self-contained")
-    if not ex:
-        raise AnalysisError("anchor vanished: exec/eval in compile()")
 
 
 def r3(p, rep):
@@ -228,18 +300,25 @@ def r5(p, rep):
         rep.add("C04.R5", f"{comp.qualname}:allow_inline_functions", f"{comp.module.rel}:{allow[0].lineno}", set(names) <= pure, f"inlineable callees {names}" + ("" if set(names) <= pure else " include functions that are not pure builtins"))
     else:
         raise AnalysisError("unrecognised idiom: allow_inline_functions list not found")
+    localfns = {n.name: n for n in walk_no_nested(comp.node) if isinstance(n, ast.FunctionDef)}
+    localfns.update({g.name: g.node for g in p.funcs.values() if g.module is comp.module and g.parent is None and g.cls is None})
     for q, br in branches.items():
         cname = q.split("::")[1]
-        defines = [n for st in br.body for n in ast.walk(st) if isinstance(n, ast.Call) and norm(n.func) == "code.define"]
-        appends = [n for st in br.body for n in ast.walk(st) if isinstance(n, ast.Call) and isinstance(n.func, ast.Attribute) and n.func.attr in ("append", "prepend_after_comments", "prepend") and n.args and isinstance(n.args[0], ast.Call) and norm(n.args[0].func).endswith("Statement")]
+        body = common.expand_local_helper_calls(br.body, localfns)
+        defines = [n for st in body for n in ast.walk(st) if isinstance(n, ast.Call) and norm(n.func) == "code.define"]
+        appends = [n for st in body for n in ast.walk(st) if isinstance(n, ast.Call) and isinstance(n.func, ast.Attribute) and n.func.attr in ("append", "prepend_after_comments", "prepend") and n.args and isinstance(n.args[0], ast.Call) and norm(n.args[0].func).endswith("Statement")]
         site = f"{f2.module.rel}:{br.lineno}"
         if cname == "Call":
             for dcall in defines:
                 ni = common.kwarg(dcall, "no_inline")
-                ok = ni is not None and isinstance(ni, ast.UnaryOp) and isinstance(ni.op, ast.Not) and "allow_inline_functions" in norm(ni)
+                text = norm(ni) if ni is not None else ""
+                if ni is not None and isinstance(ni, ast.UnaryOp) and isinstance(ni.operand, ast.Call) and isinstance(ni.operand.func, ast.Name) and ni.operand.func.id in localfns:
+                    text += " :: " + " ".join(norm(b) for b in localfns[ni.operand.func.id].body)
+                ok = ni is not None and isinstance(ni, ast.UnaryOp) and isinstance(ni.op, ast.Not) and "allow_inline_functions" in text
                 rep.add("C04.R5", f"{f2.qualname}:Call:no_inline", site, ok, f"no_inline={norm(ni) if ni is not None else '<default False>'}" + ("" if ok else ": results of arbitrary calls may be inlined and re-evaluated at every use"))
         if cname in ("CallInplace", "UpdateItem", "Assert"):
-            ok = bool(appends) and bool(defines) and appends[0].lineno < defines[0].lineno
+            order = [n for st in body for n in ast.walk(st) if n in appends or n in defines]
+            ok = bool(appends) and bool(defines) and order.index(appends[0]) < order.index(defines[0])
             rep.add("C04.R5", f"{f2.qualname}:{cname}:statement", site, ok, "a Statement is appended to the block before the output is defined as an alias" if ok else f"the {cname} branch defines its output without emitting a statement first: the side effect is lost or reordered")
             for dcall in defines:
                 fi = common.kwarg(dcall, "force_inline")
@@ -251,9 +330,11 @@ def r5(p, rep):
                 inp = common.kwarg(st_call, "inputs")
                 exprs = {t.id for s in br.body if isinstance(s, ast.Assign) and isinstance(s.value, (ast.Call, ast.ListComp, ast.DictComp)) and "_get_expression_for" in norm(s.value) for t in s.targets if isinstance(t, ast.Name)}
                 if cname == "UpdateItem":
-                    exprs |= {"inputs"}
-                    exprs -= {"at_to_code"}
-                used = {x.id for x in ast.walk(inp) if isinstance(x, ast.Name)} if inp is not None else set()
+                    # `to_code, inputs = _at(obj, key)`: the second element carries the expressions of object and key
+                    for s_ in br.body:
+                        if isinstance(s_, ast.Assign) and isinstance(s_.targets[0], ast.Tuple) and isinstance(s_.value, ast.Call) and norm(s_.value.func) == "_at" and len(s_.targets[0].elts) == 2:
+                            exprs.add(norm(s_.targets[0].elts[1]))
+                used = common.names_feeding(br.body, inp) if inp is not None else set()
                 missing = exprs - used
                 rep.add("C04.R5", f"{f2.qualname}:{cname}:statement-inputs", site, not missing, f"Statement(inputs=...) lists {sorted(used)}" + ("" if not missing else f"; {sorted(missing)} missing: liveness / ordering ignores that dependency"))
 
